@@ -44,6 +44,9 @@ struct ProtoObs {
     bool ccs_given[2] = { false, false };      // some change_cipher_spec record (honest or not) was handed to this role
     // TLS 1.3 early data
     int early_write_ok = 0, early_write_refused = 0, early_write_unpermitted = 0;   // unpermitted: accepted although matrixSslGetMaxEarlyData() was 0
+    int aead_fail[2] = {0, 0};                 // AEAD open failures seen inside each endpoint (seam probe on the decrypt primitive)
+    int aead_fail_survived[2] = {0, 0};        // ... after which the session was not dead when the call returned
+    std::string aead_fail_survived_ctx[2];
     size_t skipped_undecryptable_bytes = 0;   // protected records a TLS 1.3 server swallowed before completion without progress, delivery, output or death
     int skipped_records = 0;
     std::vector<SealRec> seals;
